@@ -187,4 +187,13 @@ class AbsMap:
             return SymSeq(f"{self.name}.values", self.n, lambda i: I.opaque(f"{self.name}.value"))
         if name == "keys":
             return SymSeq(f"{self.name}.keys", self.n, lambda i: I.opaque(f"{self.name}.key"))
+        if name == "items":
+            key = z3.Function(f"key({self.name})", z3.IntSort(), z3.IntSort())
+            return SymSeq(f"{self.name}.items", self.n, lambda i: (SV(key(i), "int"), I.opaque(f"{self.name}.value")))
+        if name == "clear":
+            self.n = z3.IntVal(0)
+            for ent in self.q:
+                ent[1] = False
+            self.cleared = True
+            return None
         return NotImplemented
